@@ -219,7 +219,7 @@ def make_harness(n_calls: int, first_kind: str, later_kinds: list[str] | None = 
             vals = {n: (True if b else False) for n, b in (("skip_class", b_skip), ("sort_keys", b_sort), ("optimized", b_opt)) if _decided(e, b)}
             history.append(f"{kind} options={vals} dialect={dialect} -> {'raised ' + raised if raised else 'returned'}")
             if out is not None:
-                err = check_output(out, vals.get("skip_class", False), vals.get("sort_keys", False), dialect, ordered=not kind.startswith("to_yaml"), optimized=vals.get("optimized", False))
+                err = check_output(out, vals.get("skip_class", False), vals.get("sort_keys", False), dialect, ordered=True, optimized=vals.get("optimized", False))
                 if err:
                     scenario.update(problem=err)
                     combo = "+".join(sorted(k for k in ("skip_class", "sort_keys") if vals.get(k)) + ([dialect] if dialect else []) + (["optimized_sources"] if "index-based" in err else []))
@@ -452,7 +452,7 @@ def user_dialect_harness(e):
     scenario["options"] = vals
     if dname != "ints-as-tagged-strings":
         # the dialect omits keys; the options of the same call still apply to what is written
-        err = check_output(out, vals.get("skip_class", False), vals.get("sort_keys", False), None, ordered=kind == "as_dict")
+        err = check_output(out, vals.get("skip_class", False), vals.get("sort_keys", False), None, ordered=True)
         if err and "type tag missing" not in err:
             scenario.update(problem=err)
             e.fail("nested-object-ignores-option:with-user-dialect", scenario=scenario)
@@ -532,7 +532,7 @@ def spec(tier: str, seed: int) -> Spec:
         bounds={"calls_per_sequence": "2 option-carrying calls (quick: the second is always as_dict with options), each followed by a default as_dict()", "trees": len(TREES), "options": "SKIP_CLASS, SORT_KEYS, SOURCE_OPTIMIZED_SERIALIZATION lazily; dialect none/explorer/test", "fault_schedule": "failure at any nested hooked object (<= 3 per tree)", "corruptions": ["unknown type tag", "missing id", "top-level list", "top-level scalar"]},
         rule="a case = one path = (tree, call sequence, value of every option bit and fault bit the real code consulted, dialect, corruption); distinct by that tuple; non-trivial = at least one option or fault consulted",
         variables="lazy booleans (options, fault schedule); selectors (call kinds, dialect, corruption, tree)",
-        assumptions=["key order is not checked for YAML output (the YAML dumper sorts keys itself)", "one custom mashumaro dialect (ints written as tagged strings) is passed to as_dict / to_yaml; the JSON / MessagePack front-ends pass their own"],
+        assumptions=["key order is checked for every front-end (since fix 5684162 the YAML dumper keeps the order the library wrote)", "one custom mashumaro dialect (ints written as tagged strings) is passed to as_dict / to_yaml; the JSON / MessagePack front-ends pass their own"],
         outside=["sequences longer than 2 option-carrying calls", "faults inside deserialization hooks other than malformed input", "custom mashumaro dialects"],
     )
 
